@@ -445,15 +445,24 @@ def check(tier):
                     if nseq:
                         plan.append((initf, path, "at%d-%s" % (k, initf), 1))
                 for name, seqf, pref, nw in plan:
+                    attack = pref.startswith("at")
                     s = driver(binary, ["-mode", "replay", "-in", seqf, "-initf", name, "-workers", str(nw),
                                         "-out", os.path.join(d, pref), "-tmp", d])
                     for fn in merge(sorted(glob.glob(os.path.join(d, pref + ".*.ndjson"))), 4):
                         meta[fn] = dict(kind="kinds", extra=dict(initf=name))
                     tot["cases"] += s["cases"]
-                    tot["mismatches"] += s["mismatches"]
                     tot["broken"] += s.get("broken", 0)
                     tot["retried"] = tot.get("retried", 0) + s.get("retried", 0)
-                    tot["samples"] += s.get("mismatch_samples", [])[:3]
+                    if attack:
+                        # the view an attack schedule carries is the prediction of the model with
+                        # ONE PROTECTION REMOVED: code that has the protection differs from it, and
+                        # that is the point (the trace is still validated against the model of the
+                        # code as it is).  Recorded, not drift.
+                        k = int(pref[2:pref.index("-")])
+                        tot["attacks"][k]["real_view_equals_view_predicted_without_the_protection"] = s["mismatches"] == 0
+                    else:
+                        tot["mismatches"] += s["mismatches"]
+                        tot["samples"] += s.get("mismatch_samples", [])[:3]
                 return tot
 
             phase = {}
